@@ -48,6 +48,16 @@ func (g *fgen) freshResults(sig *types.Signature, name string, st *state) []val 
 }
 
 func (g *fgen) call(in ssa.CallInstruction, st *state) []val {
+	if _, isB := in.Common().Value.(*ssa.Builtin); isB {
+		return g.callInner(in, st)
+	}
+	g.assertGinvs(st, "ginv-call", g.siteLabel(in.Pos(), "call"), in.Pos())
+	rs := g.callInner(in, st)
+	g.assumeGinvs(st)
+	return rs
+}
+
+func (g *fgen) callInner(in ssa.CallInstruction, st *state) []val {
 	c := in.Common()
 	pos := in.Pos()
 	if c.IsInvoke() {
